@@ -410,8 +410,15 @@ func TestVerifC17Steps(t *testing.T) {
 		var res []c17StepObs
 		var cevs []c17Event
 		consumed := 0
+		afterStop := 0
 		for _, ev := range c.Events {
 			req.outs = []c17Out{}
+			if d.stopped {
+				afterStop++
+			}
+			if afterStop > 2 {
+				ev = c17Event{Ev: "nop"} // the loop has exited: later events are not even looked at
+			}
 			ev = c17Concrete(&c, req, bf, ev, &consumed)
 			cevs = append(cevs, ev)
 			if !d.stopped {
